@@ -11,8 +11,14 @@ _MODS = {0: "", 2: "_", 4: "@", 8: "$", 16: "!"}
 
 
 def proxy_leak(e: BaseException) -> bool:
+    """A TypeError caused by a proxy object reaching a C function (never a finding).
+
+    Only TypeErrors qualify: a KeyError / IndexError / ValueError raised by the code under
+    test is a real outcome even when its message happens to render a symbolic value."""
+    if not isinstance(e, TypeError):
+        return False
     m = str(e)
-    return any(x in m for x in ("SymStr", "SymInt", "SymBool", symx.OPAQUE_MARK, "PatternProxy", "SymLiteral"))
+    return any(x in m for x in ("SymStr", "SymInt", "SymBool", symx.OPAQUE_MARK, "PatternProxy", "SymLiteral", "non-string"))
 
 
 def load(cp, text, *, optimized: bool = False):
